@@ -7,6 +7,7 @@ import (
 	"go/constant"
 	"go/token"
 	"go/types"
+	"sort"
 	"strings"
 
 	"golang.org/x/tools/go/ssa"
@@ -833,10 +834,58 @@ func ruleC02R5(c *Ctx) {
 
 // ---- R6: every session result is a collectLeftovers result; stop order; at most once
 
+// collectWrappers: functions of the session whose leftovers result (result #0) is, on every return, what collectLeftovers
+// (or another such function) returned — "end the session for this reason" helpers shared by the two stages
+func collectWrappers(c *Ctx) map[*ssa.Function]bool {
+	col := c.P.Fn(aCollect)
+	w := map[*ssa.Function]bool{}
+	fromCollect := func(v ssa.Value) bool {
+		v = strip(v)
+		if ex, ok := v.(*ssa.Extract); ok && ex.Index == 0 {
+			v = ex.Tuple
+		}
+		cl, ok := v.(*ssa.Call)
+		if !ok || cl.Common().StaticCallee() == nil {
+			return false
+		}
+		f := cl.Common().StaticCallee()
+		return f == col || w[f]
+	}
+	for changed := true; changed; {
+		changed = false
+		for _, f := range c.P.universe {
+			if w[f] || f == col || f.Parent() != nil || f.Blocks == nil || fnPkgPath(f) != fnPkgPath(col) || f.Signature.Results().Len() == 0 ||
+				isAnchor(f, aResend) || isAnchor(f, aProcInput) || isAnchor(f, aSessRun) {
+				continue
+			}
+			if !types.Identical(f.Signature.Results().At(0).Type(), col.Signature.Results().At(0).Type()) || f.Object() == nil || f.Object().Exported() {
+				continue
+			}
+			rvs := returnedValues(f, 0)
+			all := len(rvs) > 0
+			for _, rv := range rvs {
+				if !fromCollect(rv.Val) {
+					all = false
+				}
+			}
+			if all {
+				w[f] = true
+				changed = true
+			}
+		}
+	}
+	return w
+}
+
 func ruleC02R6(c *Ctx) {
+	wrappers := collectWrappers(c)
 	isCollect := func(v ssa.Value) bool {
-		cl, ok := strip(v).(*ssa.Call)
-		return ok && cl.Common().StaticCallee() != nil && isAnchor(cl.Common().StaticCallee(), aCollect)
+		v = strip(v)
+		if ex, ok := v.(*ssa.Extract); ok && ex.Index == 0 {
+			v = ex.Tuple
+		}
+		cl, ok := v.(*ssa.Call)
+		return ok && cl.Common().StaticCallee() != nil && (isAnchor(cl.Common().StaticCallee(), aCollect) || wrappers[cl.Common().StaticCallee()])
 	}
 	// processInput: all returns are collectLeftovers(...)
 	pi := c.P.Fn(aProcInput)
@@ -914,8 +963,64 @@ func ruleC02R6(c *Ctx) {
 			c.check(hit == nil, "C02.R6", fn, "collectLeftovers ends the session", s.Pos(), "no further collectLeftovers/sendChunk is reachable after collecting", "after collectLeftovers the session goes on sending or collecting again")
 		}
 	}
-	n := len(c.whoMayCall("C02.R6", "collectLeftovers", anchorPred(aCollect), aResend, aProcInput))
+	allowedCollect := []string{aResend, aProcInput}
+	var wnames []string
+	for wf := range wrappers {
+		wnames = append(wnames, anchorName(wf))
+	}
+	sort.Strings(wnames)
+	allowedCollect = append(allowedCollect, wnames...)
+	n := len(c.whoMayCall("C02.R6", "collectLeftovers", anchorPred(aCollect), allowedCollect...))
 	c.floor("C02.R6", "collectLeftovers sites", n, 3)
+	// a wrapper is only used by the two stages (and other wrappers)
+	for _, wn := range wnames {
+		c.whoMayCall("C02.R6", wn, anchorPred(wn), allowedCollect...)
+	}
+	// the recovery stage hands ITS leftovers channel to collectLeftovers on every way there: what still waits in the channel
+	// is merged into the new leftovers. A nil (right for the input stage, which has no such channel) reached from
+	// resendLeftovers — through a shared "end the session" helper — drops every chunk still queued for resending.
+	{
+		col := c.P.Fn(aCollect)
+		var walk func(f *ssa.Function, bind map[*ssa.Parameter]ssa.Value, depth int, via string)
+		walk = func(f *ssa.Function, bind map[*ssa.Parameter]ssa.Value, depth int, via string) {
+			val := func(v ssa.Value) ssa.Value {
+				v = resolve(v)
+				if p, ok := v.(*ssa.Parameter); ok && bind != nil {
+					if b, ok := bind[p]; ok {
+						return b
+					}
+				}
+				return v
+			}
+			for _, g := range c.regionOf(f) {
+				for _, a := range withAnons(g) {
+					for _, site := range callsIn(a) {
+						callee := site.Common().StaticCallee()
+						if callee == nil {
+							continue
+						}
+						switch {
+						case callee == col:
+							arg := val(site.Common().Args[1])
+							okArg := arg == ssa.Value(rs.Params[1])
+							c.check(okArg, "C02.R6", a, "the recovery stage hands its leftovers channel to collectLeftovers"+via, site.Pos(),
+								"the first argument is resendLeftovers' own leftovers parameter",
+								"collectLeftovers is reached from the recovery stage"+via+" with "+canonOf(arg)+" instead of the leftovers channel being resent: the chunks still waiting in it are neither resent nor handed back")
+						case wrappers[callee] && depth < 3:
+							nb := map[*ssa.Parameter]ssa.Value{}
+							for i, prm := range callee.Params {
+								if i < len(site.Common().Args) {
+									nb[prm] = val(site.Common().Args[i])
+								}
+							}
+							walk(callee, nb, depth+1, via+" via "+callee.Name())
+						}
+					}
+				}
+			}
+		}
+		walk(rs, nil, 0, "")
+	}
 
 	// order inside collectLeftovers
 	cl := c.P.Fn(aCollect)
